@@ -119,10 +119,12 @@ theorem import_noop_when_full (F : File) (cfg : Cfg) (B : List BHdr) (Fl : List 
     obtain ⟨j, _, hj⟩ := hp.2 e hr
     rw [hj, hd1, hd2]; simp
 
-/-- **Repeating the import changes nothing** (outside the recorded shape): after
-a successful import, a second import of the same files — with any batch size and
-whatever it reports — leaves both stores exactly as they are. -/
-theorem C14_idempotent_partial (F : File) (cfg cfg2 : Cfg) (st : Stores) (hh : Healthy st) (heq : EqualHeights st)
+/-- Repeating the import with ANY batch size changes nothing (outside the
+recorded shape), whatever the second import reports.  (With a different batch
+size it may report `invalid`: the validator sanity-checks the file's first header
+only when the first batch has length one.)  See `C14_idempotent_partial` for the
+identical import. -/
+theorem C14_idempotent_any_batch_partial (F : File) (cfg cfg2 : Cfg) (st : Stores) (hh : Healthy st) (heq : EqualHeights st)
     (hbs : cfg.bs ≥ 1) (hbs2 : cfg2.bs ≥ 1) (hshape : f7Shape (obsOf st) F = false)
     (hok : (importStores F cfg st).1 = none) :
     (importStores F cfg2 (importStores F cfg st).2).2 = (importStores F cfg st).2 := by
@@ -156,6 +158,52 @@ theorem C14_idempotent_partial (F : File) (cfg cfg2 : Cfg) (st : Stores) (hh : H
     have hp := importRun_covered F cfg B Fl B.length rfl heq.symm hl1 he
     rw [hp.1]
     exact (importRun_covered F cfg2 B Fl B.length rfl heq.symm hl1 he).1
+
+/-- **Repeating the import reports success and changes nothing** (outside the
+recorded shape): after a successful import, a second import of the same files
+with the same batch size — even with write failures armed, none is reached —
+reports success and leaves both stores exactly as they are. -/
+theorem C14_idempotent_partial (F : File) (cfg cfg2 : Cfg) (st : Stores) (hh : Healthy st) (heq : EqualHeights st)
+    (hbs : cfg.bs ≥ 1) (hsame : cfg2.bs = cfg.bs) (hshape : f7Shape (obsOf st) F = false)
+    (hok : (importStores F cfg st).1 = none) :
+    (importStores F cfg2 (importStores F cfg st).2).1 = none ∧
+    (importStores F cfg2 (importStores F cfg st).2).2 = (importStores F cfg st).2 := by
+  refine ⟨?_, C14_idempotent_any_batch_partial F cfg cfg2 st hh heq hbs (by omega) hshape hok⟩
+  obtain ⟨hl1, hl2⟩ := healthy_len st hh
+  have hmk := healthy_eq_mk st hh
+  unfold EqualHeights at heq
+  obtain ⟨B, Fl, rfl⟩ : ∃ B Fl, st = mk B Fl := ⟨_, _, hmk⟩
+  have heq : B.length = Fl.length := heq
+  have hl1 : B.length ≥ 1 := hl1
+  have hl2 : Fl.length ≥ 1 := hl2
+  unfold importStores at hok ⊢
+  simp only at hok ⊢
+  obtain ⟨hpre, hc, hv⟩ := importRun_ok_facts F cfg _ hok
+  obtain ⟨_, hne, hN, _⟩ := preChecks_none F hpre
+  have hlen : F.blocks.length ≥ 1 := by
+    cases hb : F.blocks with
+    | nil => exact absurd hb hne
+    | cons x xs => simp
+  by_cases hs : F.bstart = 0
+  · have hp := importRun_zero F cfg B Fl B.length hs hbs rfl heq.symm hl1
+    obtain ⟨_, hst⟩ := hp.1 hok
+    rw [hst]
+    have hc2 := continuity_after_success F B Fl hs hl1 heq hN hlen hc
+    have hcov := importRun_covered_gen F cfg2 (B ++ F.blocks.drop B.length) (Fl ++ F.filters.drop B.length)
+      (by rw [List.length_append]; omega) (by rw [List.length_append]; omega)
+      (by simp only [List.length_append, List.length_drop]; unfold endHeight; omega)
+    exact hcov.2.mpr ⟨hpre, hc2, hsame ▸ hv⟩
+  · have e3 : ∀ B Fl, (obsOf (mk B Fl)).blocks = B := fun _ _ => rfl
+    have e4 : ∀ B Fl, (obsOf (mk B Fl)).filters = Fl := fun _ _ => rfl
+    have he : endHeight F ≤ B.length - 1 := by
+      simp only [f7Shape, Bool.and_eq_false_iff, decide_eq_false_iff_not, e3, e4] at hshape
+      rcases hshape with h | h
+      · omega
+      · rw [← heq, Nat.min_self] at h; omega
+    have hp := importRun_covered F cfg B Fl B.length rfl heq.symm hl1 he
+    rw [hp.1]
+    have hcov := importRun_covered_gen F cfg2 B Fl hl1 hl2 (by omega)
+    exact hcov.2.mpr ⟨hpre, hc, hsame ▸ hv⟩
 
 /-- **Failure clause, full statement** (false in the recorded shape, see the counterexample). -/
 def C14_failure : Prop :=
